@@ -24,7 +24,7 @@ func (v *Value) MarshalNBT(w io.Writer) (err error) {
 	case nbt.TagList:
 		// Take a look at the first element's tag.
 		// If length == 0, use TagEnd
-		elemType := nbt.TagEnd
+		elemType := v.listType
 		length := len(v.list)
 		if length > 0 {
 			elemType = v.list[0].tag
